@@ -27,6 +27,7 @@ def gen_config(rng, tier, versions=(0, 0, 1, 2), dims=(2, 2, 2, 3, 3, 4), bounda
         "steps": rng.randint(1, cap),
         "errseed": rng.randrange(2 ** 31),
     }
+    cfg["recalc"] = rng.choice([None, None, None, 1, 3, 10])   # recalculate_frequently with this many refinements per restart
     if cfg["profile"] == "equal":
         cfg["steps"] = min(cfg["steps"], 3 if d == 2 else 2)
     return cfg
@@ -56,6 +57,7 @@ def build(cfg, f, observer, reference=None, norm=np.inf):
     c.log_util.set_print_level(100)
     c.log_util.set_log_level(100)
     c.vobs = observer
+    c.verif_recalc = cfg.get("recalc")
     return c
 
 
